@@ -356,32 +356,41 @@ def run(c):
             continue
         else:
             lines.append(ln)
-    # typed vs run-time
-    typed, rt = {}, {}
-    for k in range(NPARTS):
-        for ln in rec(state["typed"][k], "typed%d" % k):
+    # typed vs run-time (thorough: four seeds = four families of problems)
+    nseeds = 4 if th else 1
+    for so in range(nseeds):
+        env2 = {"OMP_NUM_THREADS": 1, "VERIF_SEED": c.seed + 1000 * so}
+        typed, rt = {}, {}
+        for k in range(NPARTS):
+            out = c.record(state["typed"][k], [], out=c.path("typed%d-%d.ndjson" % (k, so)), env=env2, sig={"component": "typed%d" % k})
+            for ln in open(out).read().splitlines():
+                if not ln.strip():
+                    continue
+                r = json.loads(ln)
+                if r.get("k") == "typed":
+                    typed[(r["idx"], r["mat"], r["cfg"])] = r
+                elif r.get("e") not in (None, "End"):
+                    lines.append(ln)
+        out = c.record(state["rt"], [], out=c.path("runtime-%d.ndjson" % so), env=env2, sig={"component": "runtime"})
+        for ln in open(out).read().splitlines():
+            if not ln.strip():
+                continue
             r = json.loads(ln)
-            if r.get("k") == "typed":
-                typed[(r["idx"], r["mat"], r["cfg"])] = r
-            elif r.get("e") not in (None, "End"):
+            if r.get("k") == "rt":
+                rt[(r["idx"], r["mat"], r["cfg"])] = r
+            elif r.get("e") == "End" or (so > 0 and r.get("k") in ("enum", "badtype")):
+                continue
+            else:
                 lines.append(ln)
-    for ln in rec(state["rt"], "runtime"):
-        r = json.loads(ln)
-        if r.get("k") == "rt":
-            rt[(r["idx"], r["mat"], r["cfg"])] = r
-        elif r.get("e") == "End":
-            continue
-        else:
-            lines.append(ln)
-    for key in sorted(set(typed) | set(rt)):
-        t, r = typed.get(key), rt.get(key)
-        if t is None or r is None:
-            lines.append(json.dumps({"e": "missing-%s-side" % ("typed" if t is None else "runtime"), "case": list(key)}))
-            continue
-        m = dict(r); m["k"] = "equiv"
-        for f in ("threw", "exc", "it", "res_lo", "res_hi", "x_lo", "x_hi", "px_lo", "px_hi"):
-            m[f] = t[f]
-        lines.append(json.dumps(m))
+        for key in sorted(set(typed) | set(rt)):
+            t, r = typed.get(key), rt.get(key)
+            if t is None or r is None:
+                lines.append(json.dumps({"e": "missing-%s-side" % ("typed" if t is None else "runtime"), "case": list(key)}))
+                continue
+            m = dict(r); m["k"] = "equiv"; m["seed"] = c.seed + 1000 * so
+            for f in ("threw", "exc", "it", "res_lo", "res_hi", "x_lo", "x_hi", "px_lo", "px_hi"):
+                m[f] = t[f]
+            lines.append(json.dumps(m))
     lines.append('{"e":"End"}')
     trace = c.path("c14.ndjson")
     open(trace, "w").write("\n".join(lines) + "\n")
@@ -398,17 +407,31 @@ def run(c):
         if r.get("k") == "tree" and not r["threw"] and (r["t"]["v"] or r["t"]["c"]):
             c.nontrivial.add(hashlib.sha1((r["comp"] + json.dumps(r["t"], sort_keys=True)).encode()).hexdigest()[:12])
         elif r.get("k") == "equiv" and r["it"] > 0:
-            c.nontrivial.add(("equiv", r["idx"], r["mat"], r["cfg"], r["x_lo"]))
+            c.nontrivial.add(("equiv", r["idx"], r["mat"], r["cfg"], r.get("seed"), r["x_lo"]))
     for want in ("tree", "schema", "equiv", "enum", "badtype", "unkrt", "equivp", "array"):
         if not kinds.get(want):
             raise vcheck.InfraError("no '%s' records were produced" % want)
-    if kinds.get("equiv", 0) != scan_ntriples() * (4 if th else 2) * 2:
-        c.note("equiv cases: %d" % kinds.get("equiv", 0))
+    if kinds.get("equiv", 0) != scan_ntriples() * (4 if th else 2) * 2 * nseeds:
+        raise vcheck.InfraError("expected %d typed/run-time cases, got %d" % (scan_ntriples() * (4 if th else 2) * 2 * nseeds, kinds.get("equiv", 0)))
     c.note("records by kind: " + json.dumps(kinds, sort_keys=True))
     for k in ("tree", "schema", "equiv", "enum", "unkrt"):
         for ln in res["lines"]:
             if '"k":"%s"' % k in ln:
                 c.sample(ln, limit=8); break
+    # exporters that do not compile: one clearly attributed violation per component
+    rest = []
+    for ln, clauses in res["bad"]:
+        try:
+            r = json.loads(res["lines"][ln - 1])
+        except Exception:
+            r = {}
+        if r.get("k") == "compile":
+            c.violation("%s::params::get does not compile when instantiated - the parameters of this component cannot be written back (export-compiles)" % r["comp"],
+                        {"line": r, "lineno": ln, "clauses": clauses},
+                        {"stage": "params", "component": r["comp"], "clause": "export-compiles", "clauses": "export-compiles", "kind": "compile"})
+        else:
+            rest.append((ln, clauses))
+    res["bad"] = rest
     c.judge(res, "run-time configuration differs from compile-time configuration", sigfn=sig, stage="params")
     c.exhaustive = True
     # ------------------------------------------------------------------ drift / notes
@@ -419,6 +442,9 @@ def run(c):
                     "(tools/scan_params.py needs an update)" % comp_id)
     if state.get("dispatch_scan_violated") and not any(v[2].get("kind") in ("enum", "equiv", "equivp", "badtype") for v in c.violations):
         c.drift("DispatchModel on the scanned tables violates %s but the running wrappers satisfy DispatchOK" % state["dispatch_scan_violated"])
+    for x in comps:
+        if x["id"] not in flat:
+            c.drift("component %s of checks/C14.py (%s) was not found by the header scan: not exercised" % (x["id"], x["file"]))
     mapped = {(find_struct(scan, x) or {}).get("file", "") + ":" + str((find_struct(scan, x) or {}).get("line")) for x in comps}
     for s_ in scan["structs"]:
         key = s_["file"] + ":" + str(s_["line"])
